@@ -647,6 +647,27 @@ class Runner:
         if raised:
             last[s] = (ti, "fault:" + fault["kind"])
             self.bump("probe.fault_raised_on_valid_text")
+            if fault.get("exc") == "KeyboardInterrupt" and kind == "recompile" and slots[s] is not None and not tainted[s]:
+                # An exception that is not an Exception models an ASYNCHRONOUS interrupt: it may be delivered after the
+                # implementation's commit point (e.g. inside harmless bookkeeping that follows publication), so "it raised"
+                # does not tell whether the switch had happened. Either outcome is legal, a mixture is not - and whatever
+                # it is, later operations must keep working (a retry of the same text must take effect).
+                def like(tx):
+                    for i, fields in enumerate(texts[tx]["panel"]):
+                        random.seed(1000 + i)
+                        if outcome_of(slots[s], **fields) != judged[tx]["ref"][i]:
+                            return False
+                    return True
+
+                if model[s] is not None and like(model[s]):
+                    pass                                    # unchanged
+                elif like(ti):
+                    model[s] = ti                           # switched completely before the interrupt was delivered
+                    self.bump("probe.interrupt_after_commit")
+                else:
+                    raise Violation("mixture-after-interrupt",
+                                    {"slot": s, "old": texts[model[s]]["tid"] if model[s] is not None else None, "new": t["tid"],
+                                     "why": "after an interrupted recompile the evaluator behaves neither like the old nor like the new text"})
             return                              # rule 4: must change nothing (checked by the cross-invariant)
         # returned although the fault fired
         if fault["kind"] == "crash":
